@@ -155,8 +155,172 @@ func c05cShrinkEnumerate(sh *evidence.Shard) {
 	}
 }
 
+// ---- the limit changes BETWEEN the messages of one session ---------------------------------------
+//
+// Dimension: a history of several oversized messages on ONE session while the connection's
+// datagram limit moves between them (falls, rises again, or stays), constant during each Send.
+// Whatever the session has learnt from the refusals of earlier messages, every fragment it offers
+// must fit the limit in force at that moment, and every message that can be carried (it fits, or
+// it splits into at most 255 fitting fragments) must arrive byte-identical; a message that cannot
+// be carried puts nothing on the wire. Added after the independently seeded change C05-10 (the
+// session remembered the limit of its first refusal and cut later, larger messages to that stale
+// limit without a trial send: after the limit fell they were refused fragment by fragment and lost).
+
+type c05cSeqCase struct {
+	AddrLen  int   `json:"addr_len"`
+	Payloads []int `json:"payloads"`                   // message k of the session
+	Limits   []int `json:"limit_in_force_per_message"` // limit while message k is being sent
+}
+
+type c05cSeqIO struct {
+	limit    int
+	wire     [][]byte
+	fragOver int // size of the first FRAGMENT (fragment count > 1) that exceeded the limit in force
+}
+
+func (f *c05cSeqIO) SendMessage(buf []byte, msg *protocol.UDPMessage) error {
+	n := msg.Serialize(buf)
+	if n < 0 {
+		return nil
+	}
+	if n > f.limit {
+		if msg.FragCount > 1 && f.fragOver == 0 {
+			f.fragOver = n
+		}
+		return &quic.DatagramTooLargeError{MaxDatagramPayloadSize: int64(f.limit)}
+	}
+	f.wire = append(f.wire, append([]byte(nil), buf[:n]...))
+	return nil
+}
+
+// c05cSeqRun: as c05cShrinkRun, a failing case counts only if it fails three times in a row (the
+// packet ids are drawn by the code under test).
+func c05cSeqRun(c *c05cSeqCase) (clause string) {
+	for try := 0; try < 3; try++ {
+		if clause = c05cSeqRunOnce(c); clause == "" {
+			return clause
+		}
+	}
+	return clause
+}
+
+func c05cSeqRunOnce(c *c05cSeqCase) (clause string) {
+	addr := c05Addr(c.AddrLen, 0)
+	hdr := c05RefHeader(c.AddrLen)
+	f := &c05cSeqIO{}
+	u, cio := c05NewConn(f.SendMessage, 1)
+	defer close(cio.in)
+	d := &frag.Defragger{} // the far side of the session: one reassembler for all its messages
+	for k, pl := range c.Payloads {
+		f.limit, f.wire, f.fragOver = c.Limits[k], nil, 0
+		payload := c05cPayload(pl, k)
+		var err error
+		v, st := evidence.Catch(func() { err = u.Send(append([]byte(nil), payload...), addr) })
+		if v != nil {
+			return fmt.Sprintf("panic: %v at %s", v, evidence.PanicSite(st))
+		}
+		where := fmt.Sprintf("message %d of the session (%d bytes, limits so far %v)", k+1, pl, c.Limits[:k+1])
+		if f.fragOver > 0 {
+			return fmt.Sprintf("a fragment of %d bytes was handed to the datagram channel, limit in force %d: %s", f.fragOver, f.limit, where)
+		}
+		feasible := hdr+pl <= f.limit
+		if budget := f.limit - hdr; !feasible && budget > 0 && (pl-1)/budget+1 <= 255 {
+			feasible = true
+		}
+		if !feasible && len(f.wire) != 0 {
+			return fmt.Sprintf("%d datagrams sent for a message that cannot be carried: %s", len(f.wire), where)
+		}
+		if feasible && err != nil {
+			return fmt.Sprintf("send path returned an error for a deliverable message (%v): %s", err, where)
+		}
+		got := 0
+		for i, w := range f.wire {
+			m, perr := protocol.ParseUDPMessage(append([]byte(nil), w...))
+			if perr != nil {
+				return fmt.Sprintf("datagram %d does not parse (%v): %s", i, perr, where)
+			}
+			if out := d.Feed(m); out != nil {
+				if string(out.Data) != string(payload) || out.Addr != addr || out.SessionID != m.SessionID {
+					return fmt.Sprintf("the far side reassembled %d bytes that are not the message being sent: %s", len(out.Data), where)
+				}
+				got++
+			}
+		}
+		if feasible && got != 1 {
+			return fmt.Sprintf("deliverable message delivered %d times (%d datagrams on the wire): %s", got, len(f.wire), where)
+		}
+	}
+	return ""
+}
+
+const c05cSeqPart = "limit-changes-between-messages-client"
+
+func c05cSeqEnumerate(sh *evidence.Shard) {
+	env := sh.Env()
+	p := sh.Part(c05cSeqPart, "enum")
+	payloads := []int{700, 1300, 2000, 3000}
+	limits := []int{19, 20, 40, 600, 1200, 1452}
+	addrLens := []int{10, 64}
+	msgs := 3
+	if env.Thorough() {
+		payloads = []int{1, 581, 582, 700, 1181, 1182, 1300, 2000, 3000, 4000}
+		limits = []int{19, 20, 40, 300, 600, 1100, 1200, 1452}
+	}
+	p.Alphabet = map[string]any{"messages_on_one_session": msgs, "payload_of_each_message": payloads, "limit_in_force_during_each_message (changes between the messages)": limits, "addr_len": addrLens}
+	nP, nL := len(payloads), len(limits)
+	total := 1
+	for k := 0; k < msgs; k++ {
+		total *= nP * nL
+	}
+	var item int64
+	for _, al := range addrLens {
+		for code := 0; code < total; code++ {
+			item++
+			if !env.Mine(item) {
+				continue
+			}
+			c := c05cSeqCase{AddrLen: al}
+			falls, rises := false, false
+			for k, x := 0, code; k < msgs; k++ {
+				c.Limits = append(c.Limits, limits[x%nL])
+				x /= nL
+				c.Payloads = append(c.Payloads, payloads[x%nP])
+				x /= nP
+				if k > 0 {
+					falls = falls || c.Limits[k] < c.Limits[k-1]
+					rises = rises || c.Limits[k] > c.Limits[k-1]
+				}
+			}
+			p.Evaluations++
+			clause := c05cSeqRun(&c)
+			p.Class(al, falls, rises, c.Payloads[0] > c.Limits[0], c.Payloads[msgs-1] > c.Limits[0], c.Payloads[msgs-1] > c.Limits[msgs-1], clause == "")
+			if p.Evaluations%977 == 5 {
+				p.Sample(c)
+			}
+			if clause != "" {
+				cc := c
+				c05Report(sh, p, c05Generic(clause), fmt.Sprintf("%s/%s/payloads=%v,addr=%d,limits=%v", p.Name, c05Generic(clause), c.Payloads, al, c.Limits), clause, &cc)
+			}
+		}
+	}
+}
+
 func TestVerifC05ClientShrink(t *testing.T) {
-	evidence.Main(t, "C05", evidence.Seq{Run: c05cShrinkEnumerate, Replay: func(part string, raw json.RawMessage) (bool, bool, string) {
+	evidence.Main(t, "C05", evidence.Seq{Run: func(sh *evidence.Shard) {
+		c05cShrinkEnumerate(sh)
+		c05cSeqEnumerate(sh)
+	}, Replay: func(part string, raw json.RawMessage) (bool, bool, string) {
+		if part == c05cSeqPart {
+			var c c05cSeqCase
+			if err := json.Unmarshal(raw, &c); err != nil {
+				return true, false, err.Error()
+			}
+			if len(c.Payloads) == 0 || len(c.Limits) != len(c.Payloads) {
+				return true, false, "malformed case"
+			}
+			clause := c05cSeqRun(&c)
+			return true, clause != "", clause
+		}
 		if part != "limit-changes-mid-message-client" {
 			return false, false, ""
 		}
